@@ -124,6 +124,129 @@ CONTRACTS = [
                   "[ok\\n] sender_hs(key) go\\n, for the sender only after exactly [ok\\n] receiver_hs(key) and only if "
                   "connection_ready said 'go' (no winner yet); a loser writes nevermind\\n and raises BadHandshake; any wrong "
                   "byte raises BadHandshake; callees by contract"),
+    # ------------------------------------------------------------------ key holders only
+    Contract("lemma:handshakes_bind_key_and_role", props=[PROP], source_module=T_PY, params={"k1": "bytes", "k2": "bytes"},
+             source_text="""
+             def handshakes_bind_key_and_role(k1, k2):
+                 return (build_sender_handshake(k1), build_receiver_handshake(k1),
+                         build_sender_handshake(k2), build_receiver_handshake(k2))
+             """,
+             ensures=[("a-sender-handshake-is-never-a-receiver-handshake", "result[0] != result[1] and result[0] != result[3]"),
+                      ("fixed-length-per-role", "len(result[0]) == len(result[2]) and len(result[1]) == len(result[3]) and "
+                                                "len(result[0]) == 87 and len(result[1]) == 89"),
+                      ("sender-handshake-determines-the-key", "implies(result[0] == result[2], k1 == k2)"),
+                      ("receiver-handshake-determines-the-key", "implies(result[1] == result[3], k1 == k2)")],
+             note="over the two builders' contracts; 'determines the key' uses the HKDF idealisation (injective in the key) and "
+                  "unhexlify(hexlify(x)) == x"),
+    Contract("lemma:other_key_is_rejected", props=[PROP], source_module=T_PY,
+             params={"conn": "obj[Connection]", "ours": "bytes", "theirs": "bytes", "rest": "bytes"},
+             source_text="""
+             def other_key_is_rejected(conn, ours, theirs, rest):
+                 conn.buf = build_sender_handshake(theirs) + rest      # a complete handshake from a holder of another key
+                 try:
+                     conn._check_and_remove(build_sender_handshake(ours))
+                 except BadHandshake:
+                     return True
+                 return False
+             """,
+             requires=["ours != theirs"], ensures=[("always-rejected", "result")],
+             note="a peer with a different transit key never passes the prefix check, whatever follows its handshake "
+                  "(builders and _check_and_remove by contract; HKDF idealisation)"),
+    Contract("lemma:same_role_is_rejected", props=[PROP], source_module=T_PY,
+             params={"conn": "obj[Connection]", "ours": "bytes", "theirs": "bytes", "rest": "bytes"},
+             source_text="""
+             def same_role_is_rejected(conn, ours, theirs, rest):
+                 conn.buf = build_receiver_handshake(theirs) + rest    # the other end plays the same role as we expect of ourselves
+                 try:
+                     conn._check_and_remove(build_sender_handshake(ours))
+                 except BadHandshake:
+                     return True
+                 return False
+             """,
+             ensures=[("always-rejected", "result")],
+             note="a receiver that hears a receiver handshake (any key, also its own reflected) drops the connection"),
+    # ------------------------------------------------------------------ every other connection is closed; deadlines
+    Contract(T + "Connection._cancel", props=[PROP], params={"d": DEFERRED},
+             self_fields={"state": "str", "_error": "opt[obj[Exception]]", "transport": "obj[Transport]",
+                          "_negotiation_d": f"opt[{DEFERRED}]"},
+             modifies=["state", "_error", "_negotiation_d"],
+             ensures=[("stops-reacting", "self.state == 'hung up'"), ("deferred-dropped", "self._negotiation_d is None"),
+                      ("cancel-recorded", "exc_class(self._error) == 'CancelledError'")],
+             effects=[("loseConnection", [])],
+             note="cancelling a contender (a loser of there_can_be_only_one / the inbound factory) closes its socket"),
+    Contract(T + "Connection.connectionMade", props=[PROP], params={}, self_fields={"factory": "obj[Factory]"},
+             effects=[("setTimeout", ["TIMEOUT"]), ("connectionWasMade", ["self"])],
+             note="every connection is armed with the per-connection negotiation deadline (TimeoutMixin) before anything else"),
+    Contract(T + "Connection.timeoutConnection", props=[PROP], params={},
+             self_fields={"_error": "opt[obj[Exception]]", "transport": "obj[Transport]"}, modifies=["_error"],
+             ensures=[("timeout-recorded", "exc_class(self._error) == 'BadHandshake'")],
+             effects=[("loseConnection", [])], note="when the deadline expires the socket is closed"),
+    Contract(T + "Common._not_forever", props=[PROP], params={"timeout": "int", "d": DEFERRED},
+             self_fields={"_reactor": "obj[Reactor]"}, returns=DEFERRED,
+             ensures=[("returns-the-same-deferred", "result == d")],
+             internal_ensures=[("deadline-armed-to-cancel-the-deferred",
+                                "bcall_names() == ['callLater', 'addBoth'] and bcall_arg('callLater', 0, 0) == timeout and "
+                                "is_method_of(bcall_arg('callLater', 0, 1), d, 'cancel') and bcall_arg('addBoth', 0, 0) == d")],
+             note="connect() cannot hang: a timer that cancels the summary Deferred is armed (that the reactor fires it is "
+                  "Twisted's business)"),
+    # ------------------------------------------------------------------ exactly one winner among the contenders
+    Contract(T + "_ThereCanBeOnlyOne._remove", props=[PROP], params={"res": "opaque[Any]", "d": DEFERRED},
+             self_fields={"_remaining": f"set[{DEFERRED}]"}, modifies=["_remaining"], returns="opaque[Any]",
+             raises_exactly={"KeyError": "d not in self._remaining"},
+             ensures=[("result-passed-through", "result == res"),
+                      ("only-this-contender-removed", f"forall(lambda x: (x in self._remaining) == (x in old(self._remaining) and x != d), '{DEFERRED}')")]),
+    Contract(T + "_ThereCanBeOnlyOne._failed", props=[PROP], params={"f": "obj[Failure]"},
+             self_fields={"_first_failure": "opt[obj[Failure]]"}, modifies=["_first_failure"],
+             ensures=[("first-failure-kept", "implies(old(self._first_failure) is not None, self._first_failure is old(self._first_failure))"),
+                      ("else-this-one", "implies(old(self._first_failure) is None, self._first_failure is f)")]),
+    Contract(T + "_ThereCanBeOnlyOne._succeeded", props=[PROP], params={"res": "obj[Connection]"},
+             self_fields={"_remaining": f"set[{DEFERRED}]", "_have_winner": "bool", "_first_success": "opt[obj[Connection]]"},
+             modifies=["_have_winner", "_first_success"],
+             ensures=[("winner-recorded", "self._have_winner and self._first_success is res")],
+             internal_ensures=[("every-remaining-contender-cancelled",
+                                f"forall(lambda x: implies(x in old(self._remaining), x in gc), '{DEFERRED}') and "
+                                f"forall(lambda x: implies(x in gc, x in old(self._remaining)), '{DEFERRED}')")],
+             loops={0: {"header": "for d in list(self._remaining)",
+                        "ghost_init": {"gc": f"empty_seq('{DEFERRED}')"}, "ghost_update": {"gc": "gc + [d]"},
+                        "invariant": ["gc + _iter[_i:] == _iter", "len(gc) == _i"],
+                        "body_ensures": ["seq_unfold(_iter, _i - 1)", "iter_bcall_names() == ['cancel']", "iter_bcall_arg('cancel', 0, 0) == d"]}},
+             note="ghost gc: contenders cancelled so far; on the first success every contender still pending is cancelled exactly "
+                  "once (its Connection._cancel closes the socket).  Deferred.cancel is a boundary event here: its synchronous "
+                  "re-entry into _remove/_failed/_maybe_done is not modelled (the loop runs over a copy of the set)"),
+    Contract(T + "_ThereCanBeOnlyOne._maybe_done", props=[PROP], params={"_": "opaque[Any]"},
+             self_fields={"_remaining": f"set[{DEFERRED}]", "_fired": "bool", "_have_winner": "bool",
+                          "_first_success": "opt[obj[Connection]]", "_first_failure": "opt[obj[Failure]]", "_winner_d": DEFERRED},
+             modifies=["_fired"],
+             ensures=[("fired-flag-monotone", "implies(old(self._fired), self._fired)")],
+             internal_ensures=[
+                 ("summary-fires-at-most-once", "implies(old(self._fired), len(bcall_names()) == 0)"),
+                 ("not-before-every-contender-is-done", "implies(len(bcall_names()) > 0, not self._remaining)"),
+                 ("fires-exactly-once-when-done",
+                  "implies(not old(self._fired) and not self._remaining, self._fired and len(bcall_names()) == 1 and "
+                  "bcall_arg(bcall_names()[0], 0, 0) == self._winner_d)"),
+                 ("success-iff-a-contender-succeeded",
+                  "implies(not old(self._fired) and not self._remaining, "
+                  "ite(self._have_winner, bcall_names()[0] == 'callback' and last_bcall_arg('callback', 1) is self._first_success, "
+                  "bcall_names()[0] == 'errback' and last_bcall_arg('errback', 1) is self._first_failure))"),
+                 ("waits-while-contenders-remain", "implies(self._remaining, self._fired == old(self._fired))")],
+             note="connect()'s summary Deferred fires once (guarded by _fired), only when no contender is pending, with the first "
+                  "success if there was one, else the first failure"),
+    Contract(T + "InboundConnectionFactory._shutdown", props=[PROP], params={},
+             self_fields={"_pending_connections": f"set[{DEFERRED}]"},
+             internal_ensures=[("every-pending-negotiation-cancelled",
+                                f"forall(lambda x: implies(x in self._pending_connections, x in gc), '{DEFERRED}') and "
+                                f"forall(lambda x: implies(x in gc, x in self._pending_connections), '{DEFERRED}')")],
+             loops={0: {"header": "for d in list(self._pending_connections)",
+                        "ghost_init": {"gc": f"empty_seq('{DEFERRED}')"}, "ghost_update": {"gc": "gc + [d]"},
+                        "invariant": ["gc + _iter[_i:] == _iter", "len(gc) == _i"],
+                        "body_ensures": ["seq_unfold(_iter, _i - 1)", "iter_bcall_names() == ['cancel']", "iter_bcall_arg('cancel', 0, 0) == d"]}}),
+    Contract(T + "InboundConnectionFactory._proto_succeeded", props=[PROP], params={"p": "obj[Connection]"},
+             self_fields={"_pending_connections": f"set[{DEFERRED}]", "_inbound_d": DEFERRED},
+             internal_ensures=[("losers-cancelled-then-winner-announced-once",
+                                "call_order() == ['_shutdown'] and bcall_names() == ['callback'] and "
+                                "bcall_arg('callback', 0, 0) == self._inbound_d and bcall_arg('callback', 0, 1) is p")],
+             note="the listener's Deferred fires with the first inbound connection that finished negotiation, after every other "
+                  "pending inbound negotiation was cancelled (_shutdown by contract)"),
 ]
 
 
@@ -134,6 +257,8 @@ def regf(exclude=()):
     reg = make_transit_registry(HELPERS + CONTRACTS, exclude)
     reg.class_fields["Connection"] = {}
     sf = reg.spec_funcs
+    reg.boundary_returns["Reactor.callLater"] = "opaque[DelayedCall]"
+    reg.spec_funcs["exc_class"] = lambda it, x: VStr(it.force(x).cls if isinstance(it.force(x), VObj) else "?")
     sf["diverges"] = lambda it, a, b: VBool(z3.And(z3.Not(z3.PrefixOf(a.z, b.z)), z3.Not(z3.PrefixOf(b.z, a.z))))
     return reg
 
